@@ -209,3 +209,144 @@ theorem splitLines_frame (body rest : Bytes) (h : ∀ b ∈ body, b ≠ 0x0A) :
     simp only [splitLines, ih', hb, if_false]
 
 end Xt.Output
+
+/-! ## TOML output -/
+namespace Xt.Output
+
+variable {D E V : Type}
+
+/-- The bytes the TOML output writes for a document it accepts: the builder
+takes it, the root is a table, and the pretty printer succeeds. -/
+def accepted (env : Env D E V) (d : D) : Option Bytes :=
+  match env.build d with
+  | .error _ => none
+  | .ok v =>
+    if env.isTable v then
+      match env.pretty v with
+      | .ok bs => some bs
+      | .error _ => none
+    else none
+
+def optList {α : Type} : Option α → List α
+  | none => []
+  | some a => [a]
+
+theorem emitDoc_toml_used (env : Env D E V) (o : Out D) (d : D) (h : o.used = true) :
+    emitDoc env .toml o d = (o, .error .multiDocument) := by
+  simp [emitDoc, h]
+
+theorem emitDoc_toml_unused (env : Env D E V) (o : Out D) (d : D) (h : o.used = false) :
+    (emitDoc env .toml o d).1 =
+      { sink := o.sink ++ (optList (accepted env d)).flatten,
+        pieces := o.pieces ++ optList (accepted env d),
+        used := true, built := o.built ++ [d] } ∧
+    ((emitDoc env .toml o d).2 = .ok () ↔ (accepted env d).isSome = true) := by
+  simp only [emitDoc, h, accepted]
+  cases hb : env.build d with
+  | error e => simp [optList]
+  | ok v =>
+    by_cases ht : env.isTable v = true
+    · cases hp : env.pretty v with
+      | error e => simp [ht, hp, optList]
+      | ok bs => simp [ht, hp, optList]
+    · simp [ht, optList]
+
+theorem feedDocs_toml_used (env : Env D E V) : ∀ (ds : List D) (o : Out D), o.used = true →
+    (feedDocs env .toml o ds).1 = o ∧
+    (ds ≠ [] → (feedDocs env .toml o ds).2 = .error .multiDocument) := by
+  intro ds
+  cases ds with
+  | nil => intro o _; simp [feedDocs]
+  | cons d ds => intro o h; simp [feedDocs, emitDoc_toml_used env o d h]
+
+theorem call_toml_used (env : Env D E V) (o : Out D) (i : Input D E) (h : o.used = true) :
+    (call env .toml o i).1 = o ∧
+    (i.docs ≠ [] → (call env .toml o i).2 = .error .multiDocument) := by
+  obtain ⟨f1, f2⟩ := feedDocs_toml_used env i.docs o h
+  unfold call
+  cases hf : feedDocs env .toml o i.docs with
+  | mk o' r =>
+    rw [hf] at f1 f2
+    simp only at f1 f2
+    subst f1
+    cases r with
+    | error e => exact ⟨rfl, fun hne => by simpa using f2 hne⟩
+    | ok u =>
+      refine ⟨by cases i.fail <;> rfl, fun hne => ?_⟩
+      have := f2 hne
+      simp at this
+
+theorem calls_toml_used (env : Env D E V) : ∀ (inputs : List (Input D E)) (o : Out D), o.used = true →
+    (calls env .toml o inputs).1 = o := by
+  intro inputs
+  induction inputs with
+  | nil => intro o _; rfl
+  | cons i is ih =>
+    intro o h
+    have hc := (call_toml_used env o i h).1
+    simp only [calls]
+    cases hcall : call env .toml o i with
+    | mk o' r =>
+      rw [hcall] at hc
+      simp only at hc
+      subst hc
+      simp only
+      exact ih _ h
+
+/-- A call whose input has a first document, on an unused output: afterwards
+the state is what the first document alone made it. -/
+theorem call_toml_first (env : Env D E V) (o : Out D) (d : D) (ds : List D) (f : Option E)
+    (h : o.used = false) :
+    (call env .toml o ⟨d :: ds, f⟩).1 = (emitDoc env .toml o d).1 := by
+  unfold call
+  simp only [feedDocs]
+  have hu : (emitDoc env .toml o d).1.used = true := by
+    rw [(emitDoc_toml_unused env o d h).1]
+  cases he : emitDoc env .toml o d with
+  | mk o1 r =>
+    rw [he] at hu
+    cases r with
+    | error e => rfl
+    | ok u =>
+      simp only
+      have := (feedDocs_toml_used env ds o1 hu).1
+      cases hf : feedDocs env .toml o1 ds with
+      | mk o2 r2 =>
+        rw [hf] at this
+        simp only at this
+        subst this
+        cases r2 with
+        | error e => rfl
+        | ok u => cases f <;> rfl
+
+theorem calls_toml_unused (env : Env D E V) : ∀ (inputs : List (Input D E)) (o : Out D), o.used = false →
+    (calls env .toml o inputs).1 =
+      match (inputs.flatMap (·.docs)).head? with
+      | none => o
+      | some d => (emitDoc env .toml o d).1 := by
+  intro inputs
+  induction inputs with
+  | nil => intro o _; rfl
+  | cons i is ih =>
+    intro o h
+    obtain ⟨docs, f⟩ := i
+    cases docs with
+    | nil =>
+      have hc : call env .toml o ⟨[], f⟩ = (o, match f with | none => .ok () | some e => .error (.other e)) := by
+        cases f <;> simp [call, feedDocs]
+      simp only [calls, hc, List.flatMap_cons, List.nil_append]
+      exact ih o h
+    | cons d ds =>
+      have hc := call_toml_first env o d ds f h
+      have hu : (emitDoc env .toml o d).1.used = true := by
+        rw [(emitDoc_toml_unused env o d h).1]
+      simp only [calls, List.flatMap_cons, List.cons_append, List.head?_cons]
+      cases hcall : call env .toml o ⟨d :: ds, f⟩ with
+      | mk o' r =>
+        rw [hcall] at hc
+        simp only at hc
+        subst hc
+        simp only
+        exact calls_toml_used env is _ hu
+
+end Xt.Output
